@@ -116,27 +116,27 @@ EXTRA = {
  "C02": " A second, deeper BFS runs over a six-event core alphabet (messages go, come, pack, restart); deliveries also go into a mailbox nobody has selected. Third session: a delivery within the second of the folder's mtime followed by idle time (pack opportunity) is an event; schedule scenarios CREATE | CREATE with epilogues (DELETE n1; RENAME n2 n1 / restart, delete and create again) decide that no (name, UIDVALIDITY) pair names two incarnations.",
  "C03": " A deeper BFS over a six-event core alphabet and a schedule part (UID FETCH / FETCH overlapping another session's EXPUNGE / CLOSE, incl. slow readers) complete the check. Third session: RENAME INBOX and the same-second-delivery + idle event are in the alphabet; a refused UID FETCH is a failure; messages moved by RENAME INBOX keep their internal date.",
  "C04": " A second, deeper BFS over a narrow 'toggling' alphabet (one session flips flags while the other stays quiet, polls or looks); \\Recent is checked by three necessary "
-        "conditions (never comes back on the wire or in .mh_sequences, unchanged by STORE). Third session: system flags in other letter case, keywords an MH folder cannot hold (':' / non-ASCII: refused without effect or stored), and an INBOX(4) plan with flag changes around an EXPUNGE that renumbers while the other session is quiet.",
- "C05": " The matrix is repeated from start states in which MH keys and UIDs differ (the former top message expunged before two more arrived). Third session: a schedule part (COPY | EXPUNGE, MOVE | MOVE, COPY into the own mailbox | STORE, opposite COPYs) under every schedule with <=2 deviations: final contents and flags sequential.",
- "C06": " Schedule part: DELETE/RENAME races and commands that do not touch messages (SUBSCRIBE, EXAMINE, CREATE child ...) sent while another session's FETCH is in progress. Third session: cells for commands sent while IDLE is active without DONE first, and for keywords the store cannot hold.",
- "C08": " Every string over {1,7,2,:,*,','} up to length 5 (thorough 6) is put in nine message-set positions and decided by an independent recogniser of the RFC 3501 sequence-set grammar. Third session: differential acceptance -- every truncation / single edit of every quick-grammar sentence (2.2 million) is also read by an independent recogniser of the whole command grammar (vf/refmodel/cmdgrammar.py): in the language <=> accepted, with the same meaning.",
+        "conditions (never comes back on the wire or in .mh_sequences, unchanged by STORE). Third session: system flags in other letter case, keywords an MH folder cannot hold (':' / non-ASCII: refused without effect or stored), and an INBOX(4) plan with flag changes around an EXPUNGE that renumbers while the other session is quiet. A schedule part (flag changes against IDLE entry / exit of a slow reader, STORE | STORE, STORE | FETCH BODY[]): after its NOOP a session's last FLAGS value per message is the current one.",
+ "C05": " The matrix is repeated from start states in which MH keys and UIDs differ (the former top message expunged before two more arrived). Third session: a schedule part (COPY | EXPUNGE, MOVE | MOVE, COPY into the own mailbox | STORE, opposite COPYs) under every schedule with <=2 deviations: final contents and flags sequential. The reference no longer lets a non-UID COPY / MOVE read its numbers in the renumbered view; internal dates shown during a COPY are the final ones.",
+ "C06": " Schedule part: DELETE/RENAME races and commands that do not touch messages (SUBSCRIBE, EXAMINE, CREATE child ...) sent while another session's FETCH is in progress. Third session: cells for commands sent while IDLE is active without DONE first, and for keywords the store cannot hold. Long part: four commands that make steady progress for more than 120 s (a peer taking 1.8 s per response on INBOX(70)) must be answered by themselves, not by the watchdog; before-login part: 17 commands through the front-end, each gets exactly one tagged reply.",
+ "C08": " Every string over {1,7,2,:,*,','} up to length 5 (thorough 6) is put in nine message-set positions and decided by an independent recogniser of the RFC 3501 sequence-set grammar. Third session: differential acceptance -- every truncation / single edit of every quick-grammar sentence (2.2 million) is also read by an independent recogniser of the whole command grammar (vf/refmodel/cmdgrammar.py): in the language <=> accepted, with the same meaning. The run-loop part also sends rejected lines as the first line of a connection (incl. the POP3 front-end's marker word).",
  "C09": " Names built from the jail's own absolute path and names reaching a sibling whose name starts with the mail directory's name are added; every name runs through two command "
         "orders (probing first / creating its inside reading first). Third session: existence oracle -- every escaping name is also run with a twin of equal length whose outside components do not exist; all responses must be identical.",
  "C10": " Scenarios include slow readers (writer.drain() parked), a reader parked mid-FETCH as a start state, re-SELECT races, three sessions; client inputs postponed by one deviation "
-        "stay postponed; every COPYUID destination UID must hold the source's content. Third session: COPY into the own mailbox vs STORE (thorough: MOVE variant, three-session opposite COPYs + STORE); slow readers at CAPABILITY / LSUB.",
- "C11": " Quick tier: 17 histories incl. mailboxes emptied completely, plus every ordered pair of a 9-command alphabet after the client has learnt all UIDs. Third session: CREATE | CREATE under every schedule with <=1 (thorough 2) deviations, kill, restart, delete and create each name again: larger UIDVALIDITY.",
- "C12": " A second, deeper BFS over an eight-event core alphabet (append, expunge, keywords, RENAME INBOX, DELETE/CREATE of a parent, SUBSCRIBE).",
+        "stay postponed; every COPYUID destination UID must hold the source's content. Third session: COPY into the own mailbox vs STORE (thorough: MOVE variant, three-session opposite COPYs + STORE); slow readers at CAPABILITY / LSUB. IDLE / DONE are commands of the schedule engine; scenarios with an idling slow reader while sessions join / leave, STORE \\Deleted | EXPUNGE | NOOP, RENAME | SELECT | SELECT of an inactive mailbox, COPY | internal-date reads in the destination (sticky I/O operations).",
+ "C11": " Quick tier: 17 histories incl. mailboxes emptied completely, plus every ordered pair of a 9-command alphabet after the client has learnt all UIDs. Third session: CREATE | CREATE under every schedule with <=1 (thorough 2) deviations, kill, restart, delete and create each name again: larger UIDVALIDITY. After every recovery the next APPEND to each mailbox must get a UID no client has seen; histories in which every message leaves at once and new ones reuse the numbers.",
+ "C12": " A second, deeper BFS over an eight-event core alphabet (append, expunge, keywords, RENAME INBOX, DELETE/CREATE of a parent, SUBSCRIBE). Schedule part: SUBSCRIBE / APPEND while another session activates the mailbox (<=2 deviations), then orderly restart: LSUB, LIST and STATUS of every mailbox unchanged.",
  "C13": " Same-second deliveries (folder mtime unchanged) are composite events; a schedule part fires the delivery at every scheduling point inside STORE / FETCH / APPEND / COPY / "
-        "EXPUNGE / NOOP and into the destination of a running COPY / MOVE. Third session: the agent files messages under further MH sequences (flagged, replied, Draft); a plan with the pack threshold lowered (deliveries around a pack).",
+        "EXPUNGE / NOOP and into the destination of a running COPY / MOVE. Third session: the agent files messages under further MH sequences (flagged, replied, Draft); a plan with the pack threshold lowered (deliveries around a pack). The MH-side oracle parses .mh_sequences itself (stdlib get_sequences() hides stale keys) and covers \\Noselect placeholders; a plan with DELETE-to-placeholder / CREATE / RENAME INBOX followed by deliveries that reuse the numbers.",
  "C14": " The corpus has Date headers that fall on another day in UTC, an empty header field, and empty search strings. Third session: a corpus message with a repeated header field.",
  "C16": " A history part evaluates the equations on every state of a depth-4/5 BFS (sizes asked, messages expunged, numbers reused, folder packed); partials are probed beyond the "
         "item's end and on HEADER/TEXT/parts; a section menu is fetched for every shape. Third session: RENAME INBOX and header/ENVELOPE fetches in the history alphabet.",
  "C17": " A second, deeper BFS over an eight-event core alphabet; names behind the namespace prefix and names with all-digit components; LSUB attributes and the advertised "
-        "LIST-EXTENDED forms (SUBSCRIBED selection, RETURN SUBSCRIBED/CHILDREN/STATUS) are compared too. Third session: a plan over look-alike names (a_b / axb / axb/k: SQL LIKE wild cards; letter case; w / w/x / w-old: names sorting below '/').",
+        "LIST-EXTENDED forms (SUBSCRIBED selection, RETURN SUBSCRIBED/CHILDREN/STATUS) are compared too. Third session: a plan over look-alike names (a_b / axb / axb/k: SQL LIKE wild cards; letter case; w / w/x / w-old: names sorting below '/'). Mixed-case INBOX patterns with wild cards in the LIST / LSUB menu.",
  "C18": " 'Current password': the password file is rewritten (changed, disabled, removed, same hash) while the server runs; the old password must then be refused.",
- "C19": " The menu has 15 items (incl. commands ending directly after a literal whose last octets look like a declaration). Third session: the client connection's stream buffer is lowered together with MAX_INPUT_SIZE (40 < 64, as 64 KiB < 10 MiB in production); 17 items incl. lines longer than the buffer.",
+ "C19": " The menu has 15 items (incl. commands ending directly after a literal whose last octets look like a declaration). Third session: the client connection's stream buffer is lowered together with MAX_INPUT_SIZE (40 < 64, as 64 KiB < 10 MiB in production); 17 items incl. lines longer than the buffer. Both directions at once: a pipelined synchronising literal while a response is being relayed (open finding F112); stream buffer 12 vs limit 64 with a trickling segmentation.",
  "C20": " A second BFS starts with the POP3 session open over the DELE/RSET/QUIT bookkeeping; a schedule part races QUIT, RETR and TOP against IMAP EXPUNGE / UID FETCH / MOVE / APPEND "
-        "(the POP3 handler's own attributes are part of the canonical state).",
+        "(the POP3 handler's own attributes are part of the canonical state). Relay part: RETR replies with lines of 1 .. 300000 octets through the real POP3 front-end relay, three segmentations, delivered unmodified.",
 }
 
 
